@@ -7,6 +7,7 @@ caller, a handler that stops passing the validated transfer agents, or a SetScop
 could carry a value owner, changes the generated file and breaks a theorem here.
 -/
 import Generated.ScopeToken
+import Generated.DenomRegex
 
 namespace PvProofs.C09Facts
 open PvProofs.Facts Generated.ScopeToken
@@ -67,6 +68,26 @@ theorem token_setter_callers_expected : setterCalls = [
     ⟨"msg_server.go", "MigrateValueOwner", "SetScopeValueOwners", "signers", "ValidateUpdateValueOwners", ""⟩,
     ⟨"scope.go", "SetScope", "SetScopeValueOwner", "", "", ""⟩,
     ⟨"scope.go", "RemoveScope", "SetScopeValueOwner", "", "", ""⟩] := by
+  decide
+
+/-! ### The unrestricted-denom test (tools/extract/denomregex.go)
+
+`PvModel.DenomRegex.unrestrictedDenomOk` is a hand-written reading of ONE expression,
+`^[a-zA-Z][a-zA-Z0-9\-\.]{2,83}$`.  The two theorems below pin the two texts that expression is put
+together from in the source; if either changes (another default class or length, an anchor dropped
+or moved) the model's reading no longer speaks about the code and the check must stop. -/
+
+/-- **unrestricted_denom_regex_expected**: the constant `DefaultUnrestrictedDenomRegex`
+(x/marker/types/params.go:16) is the expression the model reads. -/
+theorem unrestricted_denom_regex_expected :
+    Generated.DenomRegex.defaultUnrestrictedDenomRegex = "[a-zA-Z][a-zA-Z0-9\\-\\.]{2,83}" := by
+  decide
+
+/-- **validate_denom_anchored_both_ends**: the only `fmt.Sprintf` in
+`Keeper.ValidateUnrestictedDenom` (x/marker/keeper/params.go:60) wraps the expression in BOTH
+anchors, so `MatchString` is a match of the whole denom. -/
+theorem validate_denom_anchored_both_ends :
+    Generated.DenomRegex.sprintfFormats = ["^%s$"] := by
   decide
 
 end PvProofs.C09Facts
